@@ -11,7 +11,9 @@ package props
 
 import (
 	"encoding/json"
+	"fmt"
 	"reflect"
+	"strings"
 	"testing"
 
 	"github.com/google/jsonschema-go/jsonschema"
@@ -61,7 +63,20 @@ var c15Loose bool
 
 var c15Names = []string{"a", "b", "c"}
 
+// genC15Schema draws a schema tree with defaults; when some leaf refers to "#/definitions/t<k>" the
+// root gets those definitions.
 func genC15Schema(t *rapid.T, depth int) *jv.V {
+	s := genC15Tree(t, depth)
+	if strings.Contains(s.JSON(), `"$ref"`) {
+		s.Set("definitions", jv.ObjV(
+			jv.Member{K: "t0", V: jv.ObjV(jv.Member{K: "type", V: jv.StrV("integer")})},
+			jv.Member{K: "t1", V: jv.ObjV(jv.Member{K: "type", V: jv.StrV("string")})},
+			jv.Member{K: "t2", V: jv.ObjV(jv.Member{K: "minimum", V: jv.NumV("1")})}))
+	}
+	return s
+}
+
+func genC15Tree(t *rapid.T, depth int) *jv.V {
 	s := jv.ObjV()
 	n := func(k int, l string) int { return rapid.IntRange(0, k-1).Draw(t, l) }
 	val := func() *jv.V { return jv.Gen(jv.Opts{MaxDepth: 2, MaxLen: 2, Keys: c15Names}).Draw(t, "dv") }
@@ -71,8 +86,9 @@ func genC15Schema(t *rapid.T, depth int) *jv.V {
 		}
 		props := jv.ObjV()
 		for _, nm := range c15Names {
-			if n(3, "hasprop") > 0 {
-				props.Set(nm, genC15Schema(t, depth-1))
+			// (deep trees are kept narrow)
+			if (depth <= 3 && n(3, "hasprop") > 0) || (depth > 3 && n(3, "hasprop-deep") == 0) {
+				props.Set(nm, genC15Tree(t, depth-1))
 			}
 		}
 		s.Set("properties", props)
@@ -108,7 +124,11 @@ func genC15Schema(t *rapid.T, depth int) *jv.V {
 		return s
 	}
 	// leaf
-	switch n(6, "leafkind") {
+	switch n(7, "leafkind") {
+	case 6:
+		// a reference to one of the root's definitions (added by the caller when any leaf asks for
+		// them): the default beside it has to validate against the referenced schema
+		s.Set("$ref", jv.StrV("#/definitions/t"+fmt.Sprint(n(3, "reftarget"))))
 	case 0:
 		s.Set("type", jv.StrV("integer"))
 	case 1:
@@ -253,6 +273,27 @@ func justified(v, ps *jv.V, path string) *failure {
 	return extends(jv.ObjV(), v, ps, path)
 }
 
+// holdsDefaults: some default is declared below schema, reachable through non-required properties
+// only — i.e. applying the defaults to an empty object at this place leaves it non-empty.
+func holdsDefaults(schema *jv.V) bool {
+	if schema == nil || schema.K != jv.Obj {
+		return false
+	}
+	props := schema.Get("properties")
+	if props == nil || props.K != jv.Obj {
+		return false
+	}
+	for _, m := range props.O {
+		if m.V.K != jv.Obj || isRequired(schema, m.K) {
+			continue
+		}
+		if m.V.Has("default") || holdsDefaults(m.V) {
+			return true
+		}
+	}
+	return false
+}
+
 // complete: every missing, non-required property with a declared default is present.
 func complete(after, schema *jv.V, path string) *failure {
 	if after.K != jv.Obj || schema == nil || schema.K != jv.Obj {
@@ -270,6 +311,9 @@ func complete(after, schema *jv.V, path string) *failure {
 		if av == nil {
 			if m.V.Has("default") && !isRequired(schema, m.K) {
 				return failf("%s: property %q has a declared default, is not required and is missing, but was not filled in", path, m.K)
+			}
+			if !isRequired(schema, m.K) && holdsDefaults(m.V) {
+				return failf("%s: property %q is missing and not required, and a default is declared below it (through non-required properties only), but no container holding that default was created (nested defaults are applied recursively)", path, m.K)
 			}
 			continue
 		}
@@ -302,7 +346,11 @@ func checkC15(c *c15Case, rec *ev.Recorder) *failure {
 			return failf("Resolve rejects a well-formed schema: %v\n%s", err, doc)
 		}
 		// ValidateDefaults
-		m, merr := refmodel.New(&refmodel.Universe{Root: c.Schema}, refmodel.D2020)
+		draft := refmodel.D2020
+		if sv := c.Schema.Get("$schema"); sv != nil && sv.K == jv.Str && sv.S == refmodel.URI7 {
+			draft = refmodel.D7
+		}
+		m, merr := refmodel.New(&refmodel.Universe{Root: c.Schema}, draft)
 		if merr != nil {
 			return failf("HARNESS: model: %v", merr)
 		}
@@ -515,10 +563,16 @@ func TestC15(t *testing.T) {
 func propC15(rec *ev.Recorder) func(t *rapid.T) {
 	return func(t *rapid.T) {
 		c := &c15Case{Typed: rapid.Bool().Draw(t, "typed")}
-		c.Schema = genC15Schema(t, rapid.IntRange(1, 3).Draw(t, "depth"))
+		c.Schema = genC15Schema(t, rapid.SampledFrom([]int{1, 2, 3, 3, 4, 5}).Draw(t, "depth"))
+		if c.Schema.Has("definitions") {
+			if rapid.IntRange(0, 2).Draw(t, "d7") == 0 {
+				c.Schema.O = append([]jv.Member{{K: "$schema", V: jv.StrV(refmodel.URI7)}}, c.Schema.O...)
+			}
+			rec.Class("schema:defaults-beside-$ref")
+		}
 		c.Pad = rapid.IntRange(0, 3).Draw(t, "pad") == 0
 		for i := 0; i < 4; i++ {
-			c.Instances = append(c.Instances, genC15Instance(t, c.Schema, 3))
+			c.Instances = append(c.Instances, genC15Instance(t, c.Schema, 5))
 		}
 		for _, inst := range c.Instances {
 			r := c15Repr{}
